@@ -70,6 +70,10 @@ def timing_scenarios(tier):
         d = chain(("T", Task("f1", TimeoutSeconds=3, **h)), Z)
         two("task-timeout-slow-worker-" + hname, d, workers={"f1": {"*": [["delay", ["ok", {"r": 1}]]]}})
         two("task-timeout-never-" + hname, d, workers={"f1": {"*": NONE}}, budget=1)
+    # a Task retried with a growing back-off: every attempt measures its TimeoutSeconds from its own (delayed) dispatch instant
+    d = chain(("T", Task("f1", TimeoutSeconds=4, Retry=[{"ErrorEquals": ["E1"], "IntervalSeconds": 2, "BackoffRate": 2.0, "MaxAttempts": 3}])), Z)
+    two("task-timeout-after-backoff-retries", d, workers={"f1": {"*": [["err", "E1", "x"], ["err", "E1", "x"], ["delay", ["ok", {"r": 3}]]]}}, budget=1)
+    two("task-timeout-after-backoff-retries-never", d, workers={"f1": {"*": [["err", "E1", "x"], ["err", "E1", "x"], ["none"]]}}, budget=1)
     # execution time-out inside a Task / Wait / fan-out, with handlers that must not intercept it
     ALL = {"Retry": [{"ErrorEquals": ["States.ALL"], "IntervalSeconds": 1, "MaxAttempts": 2}], "Catch": [{"ErrorEquals": ["States.ALL"], "Next": "Z", "ResultPath": "$.caught"}]}
     d = chain(("T", Task("f1", **ALL)), Z); d["TimeoutSeconds"] = 6
